@@ -110,6 +110,13 @@ func linearAttempt(c *Ctx) {
 			return ok && call.Call.IsInvoke() && call.Call.Method.Name() == "Err"
 		})
 		okE := len(errs) == 1 && P.Before(g.fn, an.Is(bs), errs[0]) && P.Before(g.fn, an.Is(errs[0]), sel) && g.onlyAfterSuccess(errs[0], sel)
+		// ... and before waiting for the next one: no way round the loop skips ctx.Err() (a context whose Done channel
+		// never fires reports cancellation through Err() alone; a "buffer still full" shortcut in front of the check would
+		// keep the goroutine alive for as long as nobody receives)
+		if len(errs) == 1 {
+			loops := P.PathExists(g.fn, bs, an.Is(bs), an.Is(errs[0]), nil)
+			g.add("PATH", "every tick is followed by the context check before the next wait", !loops, pickS(!loops, "every cycle through the blocking select passes ctx.Err()", "the goroutine can go from one tick to waiting for the next without looking at ctx.Err(): with a slow or absent receiver it never notices a cancellation that is only visible through Err()"), bs)
+		}
 		g.add("PATH", "after every tick the context is re-checked before forwarding", okE, pickS(okE, "tick -> ctx.Err() == nil -> send", "a tick can be forwarded without re-checking the context (more than one tick after cancellation)"), sel)
 		okT := false
 		if srcs := P.SourcesAt(sel.States[0].Send, sel); len(srcs) > 0 {
@@ -157,6 +164,10 @@ func linearAttempt(c *Ctx) {
 		srcs := P.Sources(v)
 		if _, isL := isLoad(v); isL {
 			srcs = []ssa.Value{v}
+		}
+		if prm, isP := v.(*ssa.Parameter); isP && prm.Parent() != fn {
+			// the countdown is handed to the goroutine as an argument of its go statement
+			srcs = P.SourcesDeep(v)
 		}
 		if len(srcs) == 0 {
 			return false
